@@ -34,6 +34,12 @@ checks = {
    note="Trusts RefView as the literal reading of the statement (split at \\r\\n, \\n, lone \\r; slices = characters whose UTF-16 units intersect [c,c+n), None if the line is shorter than c+n).",
  ),
 }
+checks["C12"] = dict(
+   engine="sim_io",
+   technique="deterministic simulation with fault injection over the Read seam: seeded chunking/EINTR/error/drop/dup/swap/flip/early-EOF schedules through SimReader, reader path vs slice path on the delivered bytes plus an XSSI header reference model",
+   level=("exploration","Every run delivers a stored document (fixtures, synthetic regular/index/Hermes maps from an independent emitter, non-maps, invalid, optionally damaged at rest) with a generated junk header through a seeded transport and reader (1-byte reads, splits inside the header, inside \\r\\n, exactly at the header end, around BufReader's 8192, EINTR, one hard error, dropped/duplicated/swapped chunks, bit flips, early EOF) into a reader entry point; the outcome must equal the slice entry point on the delivered bytes (both Err, or equal observational dumps), is_sourcemap must equal is_sourcemap_slice, decode_data_url(base64(D')) must equal decode_slice(D'), and for clean headers both must match a small header model (LF/CRLF skipped, bare CR rejected). A systematic single- and double-split sweep over small documents is the floor under the seeded search; boundary-cell probes must all be non-zero.","§4.3"),
+   note="Trusts the observational dump (public accessors only), the harness's header model and base64 encoder. Error kinds are not compared. Interrupted is treated as transparent per the Read contract.",
+ )
 order = ["C05","C12","C15","C16"]
 m = {
  "version":1,
@@ -46,7 +52,7 @@ m = {
    "add_only":True},
  "engines":[
    {"name":"sim_sched","path":"/verif/simsched","serves_properties":["C16"],"kind_free_text":"shuttle 0.9.3 runtime driven by the harness's own seeded Scheduler (uniform / sticky / PCT-like / replay), RefView oracle, workload+schedule minimiser"},
-   {"name":"sim_io","path":"/verif/sim","serves_properties":["C15"],"kind_free_text":"seeded simulator over the Read seam and stored bytes (SimDisk/SimTransport/SimReader) and single-client SourceView histories"},
+   {"name":"sim_io","path":"/verif/sim","serves_properties":["C12","C15"],"kind_free_text":"seeded simulator over the Read seam and stored bytes (SimDisk/SimTransport/SimReader) and single-client SourceView histories"},
  ],
  "checks":[],
  "notes":"Deterministic simulation with fault injection. One integer (VERIF_SEED, default 20261001) decides every run; exit 0 held / 1 VIOLATION / 2 harness error. Repairs of genuine defects are logged in KNOWN_FINDINGS.txt.",
